@@ -218,6 +218,28 @@ RecGlvAccept(e) ==
              /\ (Rep(lam) \/ Rep(lam2))
              /\ BBits(k0.mag) <= half + 2 /\ BBits(k1.mag) <= half + 2
 
+(* Frobenius basis: cof = 0 - signed digits in base x (every digit below |x| in magnitude, sum k_i x^i = k, for  *)
+(* |k| < |x|^sub); cof = 1 - the Barreto-Naehrig lattice: n = 36x^4 + 36x^3 + 18x^2 + 6x + 1, eigenvalue 6x^2,   *)
+(* sum k_i (6x^2)^i = k (mod n) with sub-scalars about a quarter as long as n                                     *)
+RECURSIVE IPowI(_, _)
+IPowI(x, j) == IF j = 0 THEN IOne ELSE IMul(x, IPowI(x, j - 1))
+RECURSIVE FrbSum(_, _, _)
+FrbSum(e, b, i) == IF i > e.sub THEN IZero ELSE IAdd(IMul(Val(e.ki[i]), IPowI(b, i - 1)), FrbSum(e, b, i + 1))
+BnOrderOf(x) == LET x2 == IMul(x, x) IN
+    IAdd(IAdd(IAdd(IAdd(IMul(IFromNat(36), IMul(x2, x2)), IMul(IFromNat(36), IMul(x2, x))), IMul(IFromNat(18), x2)),
+              IMul(IFromNat(6), x)), IOne)
+RecFrbAccept(e) ==
+    LET k == Val(e.k)  x == Val(e.x)  n == MagOf(e.n) IN
+    IF e.cof = 0
+    THEN IF ~(BLt(<<1>>, x.mag) /\ BLt(k.mag, IPowI(IAbs(x), e.sub).mag)) THEN TRUE       \* outside the domain
+         ELSE /\ Done(e) /\ Len(e.ki) = e.sub
+              /\ \A i \in 1..e.sub : Normal(e.ki[i], e.w) /\ BLt(Val(e.ki[i]).mag, x.mag)
+              /\ IEq(FrbSum(e, x, 1), k)
+    ELSE IF ~(e.sub = 4 /\ BLt(<<1>>, x.mag) /\ IEq(BnOrderOf(x), Nat2I(n))) THEN TRUE
+         ELSE /\ Done(e) /\ Len(e.ki) = 4
+              /\ \A i \in 1..4 : Normal(e.ki[i], e.w) /\ BBits(Val(e.ki[i]).mag) <= BBits(x.mag) + 3
+              /\ IModPos(FrbSum(e, IMul(IFromNat(6), IMul(x, x)), 1), n) = IModPos(k, n)
+
 (***************************************************************************)
 (* gcd with cofactors                                                      *)
 (***************************************************************************)
@@ -384,6 +406,7 @@ BntAccept(e) ==
       [] e.op = "bn_rec_reg" -> RecRegAccept(e)
       [] e.op = "bn_rec_jsf" -> RecJsfAccept(e)
       [] e.op = "bn_rec_glv" -> RecGlvAccept(e)
+      [] e.op = "bn_rec_frb" -> RecFrbAccept(e)
       [] OTHER -> FALSE
 
 (***************************************************************************)
